@@ -519,10 +519,16 @@ func calcPESOptionalHeaderLength(h *PESOptionalHeader) uint8 {
 	return 3 + calcPESOptionalHeaderDataLength(h)
 }
 
+// ptsDTSFlags returns the PTS_DTS_flags of the header as they are written: the field is 2 bits wide, what the struct holds
+// above them doesn't get out, and mustn't decide which time stamps follow either
+func ptsDTSFlags(h *PESOptionalHeader) uint8 {
+	return h.PTSDTSIndicator & 0x3
+}
+
 func calcPESOptionalHeaderDataLength(h *PESOptionalHeader) (length uint8) {
-	if h.PTSDTSIndicator == PTSDTSIndicatorOnlyPTS {
+	if ptsDTSFlags(h) == PTSDTSIndicatorOnlyPTS {
 		length += ptsOrDTSByteLength
-	} else if h.PTSDTSIndicator == PTSDTSIndicatorBothPresent {
+	} else if ptsDTSFlags(h) == PTSDTSIndicatorBothPresent {
 		length += 2 * ptsOrDTSByteLength
 	}
 
@@ -601,7 +607,7 @@ func writePESOptionalHeader(w *astikit.BitsWriter, h *PESOptionalHeader) (int, e
 
 	bytesWritten := 3
 
-	if h.PTSDTSIndicator == PTSDTSIndicatorOnlyPTS {
+	if ptsDTSFlags(h) == PTSDTSIndicatorOnlyPTS {
 		n, err := writePTSOrDTS(w, 0b0010, h.PTS)
 		if err != nil {
 			return 0, err
@@ -609,7 +615,7 @@ func writePESOptionalHeader(w *astikit.BitsWriter, h *PESOptionalHeader) (int, e
 		bytesWritten += n
 	}
 
-	if h.PTSDTSIndicator == PTSDTSIndicatorBothPresent {
+	if ptsDTSFlags(h) == PTSDTSIndicatorBothPresent {
 		n, err := writePTSOrDTS(w, 0b0011, h.PTS)
 		if err != nil {
 			return 0, err
